@@ -39,7 +39,9 @@ OPAQUE_CLASSES = ["opendsm/eemeter/models/hourly/settings.py::HourlySolarSetting
 def daily_fit_effect(self, meter_data):
     self.error = {"wRMSE": fresh_real("e"), "RMSE": fresh_real("e"), "MAE": fresh_real("e"),
                   "CVRMSE": fresh_real("cvrmse"), "PNRMSE": fresh_real("e")}
-    self.params = opaque("params")
+    self.model = {}
+    # the last step of the real _fit: the stored parameters are built from the model's state AT THIS POINT
+    self.params = self._create_params_from_fit_model()
     self.is_fitted = True
     return self
 
@@ -81,7 +83,7 @@ def data_object(family, kind):
         cls = BBD if kind == "baseline" else BRD if kind == "reporting" else None
     if family == "hourly":
         cls = HBD if kind == "baseline" else HRD if kind == "reporting" else None
-    df = new_object(None, columns=["temperature", "observed"])
+    df = opaque("data.df", columns=["temperature", "observed"])
     return new_object(cls, disqualification=fresh_seq("data.disqualification"), warnings=fresh_seq("data.warnings"),
                       tz=opaque("data.tz"), df=df)
 
@@ -97,7 +99,7 @@ def model_class(family):
 FIT_CASES = [{"family": f, "kind": k} for f in ["daily", "billing", "hourly"] for k in ["baseline", "reporting", "foreign"]]
 
 
-@harness("C04.fit", prop="C04", cases=FIT_CASES)
+@harness("C04.fit", prop="C04", cases=FIT_CASES, permissive=True)
 def fit_gate(family, kind, ignore: Bool, thr: Real, pthr: Real, adaptive: Bool):
     data = data_object(family, kind)
     n_dq = length(data.disqualification)
@@ -106,7 +108,7 @@ def fit_gate(family, kind, ignore: Bool, thr: Real, pthr: Real, adaptive: Bool):
                         elasticnet=new_object(None, adaptive_weights=adaptive))
         m = new_object(HM, settings=st, _ts_features=["temperature"])
     else:
-        m = new_object(model_class(family), settings=new_object(None, cvrmse_threshold=thr))
+        m = new_object(model_class(family), settings=opaque("settings", cvrmse_threshold=thr))
     out = outcome(m.fit, data, ignore_disqualification=ignore)
     ok_type = kind == "baseline"
     check("C04.fit.type", iff(out.raises("TypeError"), not ok_type))
@@ -127,6 +129,9 @@ def fit_gate(family, kind, ignore: Bool, thr: Real, pthr: Real, adaptive: Bool):
                 check("C04.fit.poorfit.name", added[0].qualified_name == "eemeter.model_fit_metrics")
         else:
             poor = m.error["CVRMSE"] > thr
+            # what to_dict()/to_json() will write is what the model carries (so the gate survives storage)
+            check("C04.fit.stored", length(m.params.info["disqualification"]) == length(m.disqualification))
+            check("C04.fit.stored.warnings", length(m.params.info["warnings"]) == length(m.warnings))
             check("C04.fit.poorfit", iff(len(added) == 1, poor))
             check("C04.fit.poorfit.atmost1", len(added) <= 1)
             if len(added) == 1:
@@ -138,7 +143,7 @@ PREDICT_CASES = [{"family": f, "kind": k, "fitted": ft}
                  for ft in ["yes", "no", "unset"]]
 
 
-@harness("C04.predict", prop="C04", cases=PREDICT_CASES)
+@harness("C04.predict", prop="C04", cases=PREDICT_CASES, permissive=True)
 def predict_gate(family, kind, fitted, ignore: Bool):
     data = data_object(family, kind)
     cls = model_class(family)
